@@ -226,3 +226,32 @@ def c20(ctx):
                                    reproducer=vlib.sched_reproducer("throttle"))
     vlib.write_evidence(ctx, exhaustive=False)
     return nviol
+
+
+def all_open_kf_ids():
+    opn, _ = vlib.known_findings(None)
+    return opn
+
+
+@handler("C02")
+def c02(ctx):
+    ctx.prepare = prepare_shims
+    prepare_shims(ctx)
+    # sequential findings that stay open (pinned by tests) are part of the sequential meaning here
+    seq_open = [k for k in all_open_kf_ids() if k["property"] in ("C03", "C04", "C05", "C06", "C08", "C09")]
+    opn, _ = vlib.known_findings(ctx.prop)
+    # the checker checked: every history of the atomic model is accepted; the split model is rejected
+    cfg = ctx.write_cfg("LinMC_run.cfg", open(os.path.join(ctx.scratch, "spec", "LinMC.cfg")).read().replace(
+        "Calls = 2", "Calls = %d" % (2 if ctx.tier == "quick" else 2)).replace(
+        "Threads = {1, 2}", "Threads = {1, 2}" if ctx.tier == "quick" else "Threads = {1, 2, 3}"))
+    ctx.model_check("LinMC", cfg, workers=8, xmx="10g", timeout=3000)
+    ctx.model_check("LinMC", "LinMC_split.cfg", expect_violation="Accepted")
+    out = os.path.join(ctx.scratch, "t", "conc")
+    summ = ctx.drive_procs("conc", ["-out", out, "-var", "all"], 12)
+    if summ["nodes"] < 10:
+        raise Infra("driver conc recorded only %d nodes" % summ["nodes"])
+    ctx.notes["driver"] = dict(name="conc", nodes=summ["nodes"], distinct_histories=summ["leaves"], extra=summ["extra"])
+    nviol = vlib.check_recordings(ctx, "conc", "LinTrace", summ["files"], seq_open + opn, variant_of=lambda f: "tree",
+                                  reproducer=vlib.sched_reproducer("conc"))
+    vlib.write_evidence(ctx, exhaustive=False)
+    return nviol
